@@ -44,6 +44,12 @@ class Check(BaseCheck):
             yield dict(v=c["v"], t=c["t"], name=c["name"], pres=c.get("pres"), vdtype=c.get("vdtype"))
         v5, t5 = gen.cube5()
         rng = gen.rng_for(self.seed, "c12")
+        # two regions that touch along a face but keep their own copies of the interface nodes (multi-material exports): coincident in space,
+        # distinct as indices - faces are identified by indices, so both copies of the interface are boundary faces
+        vm = np.asarray(v5, float); tm = np.asarray(t5)
+        mirror = vm * np.array([-1.0, 1.0, 1.0]) + np.array([2.0 * vm[:, 0].max(), 0.0, 0.0])
+        yield dict(v=np.vstack([vm, mirror]), t=np.vstack([tm, tm + len(vm)]), name="coincident:mirror-cubes")
+        yield dict(v=np.vstack([vm, vm]), t=np.vstack([tm, (tm + len(vm))[:, [0, 2, 1, 3]]]), name="coincident:double-cube")
         # exactly flat (zero volume) tetrahedra with generic integer coordinates next to proper ones: neither positive nor negative
         for k in range(60 if self.quick else 400):
             p = rng.integers(-6, 7, size=(6, 3)).astype(float)
